@@ -83,7 +83,7 @@ class World:
 
     def __init__(self, rng: random.Random, *, n_veh=(2, 6), n_stn=(1, 3), n_base=(1, 2), dt_choices=(1, 7, 30, 60, 90),
                  search_res: int = 9, with_ice: bool = True, with_fleets: bool = True, with_humans: bool = True,
-                 queue_scenario: bool = False, base_scenario: bool = False):
+                 queue_scenario: bool = False, base_scenario: bool = False, osm: bool = False):
         """`queue_scenario`: one public station with a single plug type and one or two plugs, every
         vehicle standing at it with a half-empty battery (C18)"""
         self.rng = rng
@@ -91,6 +91,23 @@ class World:
         self.dt = rng.choice(dt_choices)
         self.cells = cell_palette(rng, search_res=search_res)
         self.net = HaversineRoadNetwork(sim_h3_resolution=15)
+        self.link_ids: List[str] = []
+        if osm:
+            # a generated street graph (strongly connected, several speeds): routes have several links,
+            # steps end inside links, positions are snapped to links
+            from nrel.hive.model.roadnetwork.osm.osm_roadnetwork import OSMRoadNetwork
+
+            from .router import gen_graph
+
+            self.net = OSMRoadNetwork(gen_graph(rng), default_speed_kmph=40.0)
+            links = self.net.link_helper.links
+            self.link_ids = sorted(links.keys())
+            cells = set()
+            for _ in range(12):
+                l = links[rng.choice(self.link_ids)]
+                line = list(h3.h3_line(l.start, l.end))
+                cells.add(rng.choice([line[0], line[-1], rng.choice(line)]))
+            self.cells = sorted(cells)
         self.capture = Capture()
         reporter = Reporter()
         reporter.add_handler(self.capture)
